@@ -45,7 +45,12 @@ def point_penalty_strategy(draw, p):
 @st.composite
 def cases(draw, tier):
     p = draw(st.integers(2, 6))
-    coll = draw(st.sampled_from(SAVINGS))
+    coll = draw(st.sampled_from(SAVINGS + ["baselines"]))
+    baselines = None
+    if coll == "baselines":
+        # a known baseline per column, some of them exactly 0 (sensors that were zeroed) and some not; the data are on these levels
+        baselines = [0.0 if j % 2 == 0 else 0.8 * (1 + j // 2) for j in range(p)]
+        coll = {"cls": "L2Cost", "param": {"array": baselines}}
     ms = K.scorer_min_size(coll, p)
     msl = draw(st.integers(max(2, ms), max(2, ms) + 2))
     n = draw(st.integers(max(msl, 6), 50))
@@ -85,7 +90,7 @@ def cases(draw, tier):
             # saving's number of parameters, the collective one with the collective saving's)
             "same_callable": draw(st.integers(0, 3)) == 0,
             # integer-valued readings of the size of event counts, handed over as an int64 frame
-            "counts_int64": exact and not craft and weak is None and draw(st.integers(0, 3)) == 0}
+            "counts_int64": exact and not craft and weak is None and baselines is None and draw(st.integers(0, 3)) == 0}
     if case["same_callable"]:
         pp = case["params"]["point_penalty"] if isinstance(case["params"]["point_penalty"], dict) else \
             {"penalty": {"alpha": 1.0, "betas": [2.0] * p, "per_param": True}}
@@ -111,8 +116,25 @@ def cases(draw, tier):
             X = [[v * weak for v in row] for row in X]
         if case["counts_int64"]:
             X = [[float(round((v / (1.0 + 0.13 * j) + 10) * 2e7 * (1 + j))) for j, v in enumerate(row)] for row in X]
+    if baselines is not None:
+        X = [[v + baselines[j] for j, v in enumerate(row)] for row in X]
     case["X"] = X
     return case
+
+
+class _BaselineL2Saving:
+    """Reference for the saving of an L2 cost with a known mean per column, from its definition: the cost at the baseline minus
+    the cost at the optimal mean = (e - s) * (mean(X[s:e]) - baseline)^2, per column (long double)."""
+
+    def __init__(self, baselines):
+        self.mu = np.asarray(baselines, dtype=np.longdouble)
+
+    def fit(self, X):
+        self.X = np.asarray(X, dtype=np.longdouble)
+        return self
+
+    def evaluate(self, cuts):
+        return np.asarray([((e - s) * (self.X[s:e].mean(axis=0) - self.mu) ** 2).astype(float) for s, e in np.asarray(cuts)])
 
 
 def check(case):
@@ -178,7 +200,10 @@ def check(case):
             dense = det.transform(df)
     _, events = K.sparse_events(y)
     icols = [[int(c) for c in np.asarray(v).reshape(-1)] for v in y["icolumns"].tolist()]
-    cs = to_saving(K.build(params["collective_saving"]) if params["collective_saving"] else K.build({"cls": "L2Saving"})).fit(X)
+    if params["collective_saving"] and isinstance(params["collective_saving"].get("param"), dict) and "array" in params["collective_saving"]["param"]:
+        cs = _BaselineL2Saving(params["collective_saving"]["param"]["array"]).fit(X)
+    else:
+        cs = to_saving(K.build(params["collective_saving"]) if params["collective_saving"] else K.build({"cls": "L2Saving"})).fit(X)
     ps = to_saving(K.build(params["point_saving"]) if params["point_saving"] else K.build({"cls": "L2Saving"})).fit(X)
     kc = n_params(params["collective_saving"])
     kp = n_params(params["point_saving"])
@@ -234,7 +259,7 @@ def check(case):
     if not np.array_equal(dense.to_numpy(), want) or list(dense.columns) != [f"labels_{c}" for c in df.columns]:
         raise Violation("transform does not mark exactly the affected columns on the anomaly's rows",
                         events=[list(e) for e in events], icolumns=icols, got=dense.to_numpy().tolist())
-    classes = []
+    classes = ["baseline_vector_with_exact_zeros"] if isinstance(cs, _BaselineL2Saving) else []
     if events:
         classes.append("has_anomaly")
     if any(b - a == 1 for a, b in events):
